@@ -189,13 +189,8 @@ fn mul_uf(a: u64, b: u64, wide: bool) -> u64 {
 pub fn mul_uf64(a: u64, b: u64) -> u64 { mul_uf(a, b, true) }
 pub fn mul_uf32(a: u32, b: u32) -> u32 { mul_uf(a as u64, b as u64, false) as u32 }
 
-macro_rules! api_fill {
-    ($name:ident, $ty:ty, $n:expr, $mk:expr) => {
-        #[kani::proof]
-        #[kani::unwind(70)]
-        #[kani::stub(u64::wrapping_mul, mul_uf64)]
-        #[kani::stub(u32::wrapping_mul, mul_uf32)]
-        fn $name() {
+macro_rules! fill_body {
+    ($ty:ty, $n:expr, $mk:expr) => {{
             let seed: [u8; $n] = kani::any();
             let mut g = <$ty>::from_seed($mk(seed));
             let mut r = g.clone();
@@ -225,22 +220,36 @@ macro_rules! api_fill {
             kani::assume(k < n);
             assert!(buf[k] == exp[k]);
             assert!(g == r);              // no word skipped, repeated or left half-consumed
-        }
+    }};
+}
+// Two harnesses per generator: `api_fill_*` with multiplication abstracted (the proof, thorough tier) and `api_fillcex_*` on the
+// real multiplication, used only by the fallback layer, where the question is "is there a failing input" and a SAT answer comes
+// much faster without the memo table (a seeded change that CBMC refutes in 2 minutes did not finish in 30 with it).
+macro_rules! api_fill {
+    ($name:ident, $cex:ident, $ty:ty, $n:expr, $mk:expr) => {
+        #[kani::proof]
+        #[kani::unwind(70)]
+        #[kani::stub(u64::wrapping_mul, mul_uf64)]
+        #[kani::stub(u32::wrapping_mul, mul_uf32)]
+        fn $name() { fill_body!($ty, $n, $mk) }
+        #[kani::proof]
+        #[kani::unwind(70)]
+        fn $cex() { fill_body!($ty, $n, $mk) }
     };
 }
-api_fill!(api_fill_splitmix64, rand_xoshiro::SplitMix64, 8, crate::id);
-api_fill!(api_fill_xoroshiro64star, rand_xoshiro::Xoroshiro64Star, 8, crate::id);
-api_fill!(api_fill_xoroshiro64starstar, rand_xoshiro::Xoroshiro64StarStar, 8, crate::id);
-api_fill!(api_fill_xoroshiro128plus, rand_xoshiro::Xoroshiro128Plus, 16, crate::id);
-api_fill!(api_fill_xoroshiro128plusplus, rand_xoshiro::Xoroshiro128PlusPlus, 16, crate::id);
-api_fill!(api_fill_xoroshiro128starstar, rand_xoshiro::Xoroshiro128StarStar, 16, crate::id);
-api_fill!(api_fill_xoshiro128plus, rand_xoshiro::Xoshiro128Plus, 16, crate::id);
-api_fill!(api_fill_xoshiro128plusplus, rand_xoshiro::Xoshiro128PlusPlus, 16, crate::id);
-api_fill!(api_fill_xoshiro128starstar, rand_xoshiro::Xoshiro128StarStar, 16, crate::id);
-api_fill!(api_fill_xoshiro256plus, rand_xoshiro::Xoshiro256Plus, 32, crate::id);
-api_fill!(api_fill_xoshiro256plusplus, rand_xoshiro::Xoshiro256PlusPlus, 32, crate::id);
-api_fill!(api_fill_xoshiro256starstar, rand_xoshiro::Xoshiro256StarStar, 32, crate::id);
-api_fill!(api_fill_xoshiro512plus, rand_xoshiro::Xoshiro512Plus, 64, rand_xoshiro::Seed512);
-api_fill!(api_fill_xoshiro512plusplus, rand_xoshiro::Xoshiro512PlusPlus, 64, rand_xoshiro::Seed512);
-api_fill!(api_fill_xoshiro512starstar, rand_xoshiro::Xoshiro512StarStar, 64, rand_xoshiro::Seed512);
-api_fill!(api_fill_xorshift, rand_xorshift::XorShiftRng, 16, crate::id);
+api_fill!(api_fill_splitmix64, api_fillcex_splitmix64, rand_xoshiro::SplitMix64, 8, crate::id);
+api_fill!(api_fill_xoroshiro64star, api_fillcex_xoroshiro64star, rand_xoshiro::Xoroshiro64Star, 8, crate::id);
+api_fill!(api_fill_xoroshiro64starstar, api_fillcex_xoroshiro64starstar, rand_xoshiro::Xoroshiro64StarStar, 8, crate::id);
+api_fill!(api_fill_xoroshiro128plus, api_fillcex_xoroshiro128plus, rand_xoshiro::Xoroshiro128Plus, 16, crate::id);
+api_fill!(api_fill_xoroshiro128plusplus, api_fillcex_xoroshiro128plusplus, rand_xoshiro::Xoroshiro128PlusPlus, 16, crate::id);
+api_fill!(api_fill_xoroshiro128starstar, api_fillcex_xoroshiro128starstar, rand_xoshiro::Xoroshiro128StarStar, 16, crate::id);
+api_fill!(api_fill_xoshiro128plus, api_fillcex_xoshiro128plus, rand_xoshiro::Xoshiro128Plus, 16, crate::id);
+api_fill!(api_fill_xoshiro128plusplus, api_fillcex_xoshiro128plusplus, rand_xoshiro::Xoshiro128PlusPlus, 16, crate::id);
+api_fill!(api_fill_xoshiro128starstar, api_fillcex_xoshiro128starstar, rand_xoshiro::Xoshiro128StarStar, 16, crate::id);
+api_fill!(api_fill_xoshiro256plus, api_fillcex_xoshiro256plus, rand_xoshiro::Xoshiro256Plus, 32, crate::id);
+api_fill!(api_fill_xoshiro256plusplus, api_fillcex_xoshiro256plusplus, rand_xoshiro::Xoshiro256PlusPlus, 32, crate::id);
+api_fill!(api_fill_xoshiro256starstar, api_fillcex_xoshiro256starstar, rand_xoshiro::Xoshiro256StarStar, 32, crate::id);
+api_fill!(api_fill_xoshiro512plus, api_fillcex_xoshiro512plus, rand_xoshiro::Xoshiro512Plus, 64, rand_xoshiro::Seed512);
+api_fill!(api_fill_xoshiro512plusplus, api_fillcex_xoshiro512plusplus, rand_xoshiro::Xoshiro512PlusPlus, 64, rand_xoshiro::Seed512);
+api_fill!(api_fill_xoshiro512starstar, api_fillcex_xoshiro512starstar, rand_xoshiro::Xoshiro512StarStar, 64, rand_xoshiro::Seed512);
+api_fill!(api_fill_xorshift, api_fillcex_xorshift, rand_xorshift::XorShiftRng, 16, crate::id);
